@@ -182,6 +182,7 @@ func (x *vc) execBlock(fr *frame, st *state, b *ssa.BasicBlock) bool {
 			return true
 		default:
 			x.execInstr(fr, st, instr)
+			x.markLocal(fr, st, instr)
 		}
 	}
 	return true
@@ -757,7 +758,16 @@ func (x *vc) binop(fr *frame, st *state, in *ssa.BinOp, pos string) Val {
 		res = app("mod", res, pow2(intBits(t)))
 		return Val{T: x.define(in.Name(), sInt, res), Typ: t}
 	}
-	n := x.define(in.Name(), sInt, res)
+	var n string
+	if x.topFC != nil && x.topFC.opaqueArith {
+		// a named constant tied to its defining term by an equation (not a macro the solver unfolds): sums used as
+		// indices then keep the shape (+ offset index) that the triggers of quantified contracts match against
+		n = x.freshName(in.Name())
+		x.declare(n, sInt)
+		x.assume("true", eq(n, res))
+	} else {
+		n = x.define(in.Name(), sInt, res)
+	}
 	x.arith(st, n, t, pos)
 	return Val{T: n, Typ: t}
 }
